@@ -18,7 +18,7 @@ import (
 
 // C13: query results are a pure function of the lists and the request.
 
-var c13Hosts = []string{"ads.com", "sub.ads.com", "tracker.io", "example.org", "site.com", "printer"}
+var c13Hosts = []string{"ads.com", "sub.ads.com", "tracker.io", "example.org", "site.com", "printer", "1.2.3.4", "::1", "bce.ca"}
 
 func c13List(c *core.Ctx) []string {
 	var lines []string
@@ -40,9 +40,13 @@ func c13List(c *core.Ctx) []string {
 			s := &gen.Spec{Pattern: "||" + h + "^", Exception: c.Rng.Intn(5) == 0}
 			gen.AddRandomMods(c.Rng, s, gen.ModKinds{DNSType: true, CTag: true, Client: true, Important: true, DenyAllow: true}, 0.5)
 			lines = append(lines, s.Render(c.Rng))
-		case r < 10:
+		case r < 9 || (r == 9 && c.Rng.Intn(2) == 0):
 			s := c09Full[c.Rng.Intn(len(c09Full))]
 			lines = append(lines, strings.Replace(s.text(), "example.com", h, 1))
+		case r == 9:
+			// Rules whose $denyallow verdict depends on whether the queried name
+			// is an address.
+			lines = append(lines, []string{"*$denyallow=com", "||1.2.3.4^$denyallow=a.com", "|1.2.3.4|$denyallow=a.com,important", "*$denyallow=org|io,dnstype=A", "@@*$denyallow=example.org"}[c.Rng.Intn(5)])
 		case r == 10:
 			lines = append(lines, []string{"/[/", "/(?!x)ads/", "/a{2000}b{2000}/", "/ads(/$script", "/\\p{Nope}/"}[c.Rng.Intn(5)])
 		case r == 11:
